@@ -10,12 +10,18 @@ package main
 //                                 for v0 hooks, skip hook execution")
 //   c06V0SyncFlag                 HookConfigV0.ConvertAndCheck assigns something other than `false` to a
 //                                 binding's ExecuteHookOnSynchronization (false: v0 bindings never carry the flag)
+//   c06EnableUnlocks              one of taskHandleEnableKubernetesBindings, HookController.HandleEnableKubernetesBindings,
+//                                 kubernetesBindingsController.EnableKubernetesBindings calls an Unlock* method or
+//                                 EnableKubeEventCb (false: enabling never lets Events through — only
+//                                 taskHandleHookRun unlocks, behind the Synchronization; the model's enableKube step
+//                                 writes no `unlock` whatever the options of the binding say)
 // and the step skeletons of the modelled functions (tie T3).
 
 import (
 	"go/ast"
 	"go/token"
 	"strconv"
+	"strings"
 )
 
 func c06Facts(l *leanDefs) {
@@ -144,6 +150,37 @@ func c06Facts(l *leanDefs) {
 	} else {
 		stale = true
 	}
+	enableUnlocks := false
+	for _, f := range [][3]string{
+		{"pkg/shell-operator/operator.go", "ShellOperator", "taskHandleEnableKubernetesBindings"},
+		{"pkg/hook/controller/hook_controller.go", "HookController", "HandleEnableKubernetesBindings"},
+		{"pkg/hook/controller/kubernetes_bindings_controller.go", "kubernetesBindingsController", "EnableKubernetesBindings"},
+	} {
+		fd := findFunc(f[0], f[1], f[2])
+		if fd == nil || fd.Body == nil {
+			stale = true
+			continue
+		}
+		ast.Inspect(fd.Body, func(nd ast.Node) bool {
+			c, ok := nd.(*ast.CallExpr)
+			if !ok {
+				return true
+			}
+			name := ""
+			switch x := c.Fun.(type) {
+			case *ast.SelectorExpr:
+				name = x.Sel.Name
+			case *ast.Ident:
+				name = x.Name
+			}
+			// UnlockEvents, UnlockEventsFor, UnlockKubernetesEvents, UnlockKubernetesEventsFor (not a mutex's Unlock)
+			if strings.HasPrefix(name, "UnlockEvents") || strings.HasPrefix(name, "UnlockKubernetesEvents") || name == "EnableKubeEventCb" {
+				enableUnlocks = true
+			}
+			return true
+		})
+	}
+	l.def("c06EnableUnlocks", "Bool", strconv.FormatBool(enableUnlocks), "taskHandleEnableKubernetesBindings / HandleEnableKubernetesBindings / EnableKubernetesBindings call Unlock* or EnableKubeEventCb")
 	l.def("c06V0SkipRule", "Bool", strconv.FormatBool(v0Rule), "pkg/shell-operator/operator.go: taskHandleHookRun skips a Synchronization when Config.Version == \"v0\"")
 	l.def("c06V0SyncFlag", "Bool", strconv.FormatBool(v0Flag), "pkg/hook/config/config_v0.go: ConvertAndCheck sets ExecuteHookOnSynchronization of a v0 binding")
 	l.def("c06StableSort", "Bool", strconv.FormatBool(stable), "pkg/hook/hook_manager.go: GetHooksInOrder")
@@ -182,6 +219,12 @@ func init() {
 		skelTarget{Name: "kubernetesBindingsController.UnlockEvents", File: "pkg/hook/controller/kubernetes_bindings_controller.go",
 			Recv: "kubernetesBindingsController", Func: "UnlockEvents",
 			Calls: []string{"GetMonitor", "EnableKubeEventCb", "iterateBindingMonitorLinks", "UnlockEvents", "UnlockEventsFor", "append", "len"}},
+		// the glue between taskHandleEnableKubernetesBindings and the bindings controller: hands every Synchronization
+		// info to createTasksFn and does nothing else (the model's enableKube step: the tasks, no `unlock`)
+		skelTarget{Name: "HookController.HandleEnableKubernetesBindings", File: "pkg/hook/controller/hook_controller.go",
+			Recv: "HookController", Func: "HandleEnableKubernetesBindings",
+			Fields: []string{"KubernetesController", "WaitForSynchronization", "Queue", "Monitor"},
+			Calls:  []string{"EnableKubernetesBindings", "createTasksFn", "UnlockEvents", "UnlockEventsFor", "UnlockKubernetesEvents", "UnlockKubernetesEventsFor", "EnableKubeEventCb"}},
 		skelTarget{Name: "HookController.UnlockKubernetesEventsFor", File: "pkg/hook/controller/hook_controller.go",
 			Recv: "HookController", Func: "UnlockKubernetesEventsFor",
 			Calls: []string{"UnlockEvents", "UnlockEventsFor"}},
